@@ -48,20 +48,28 @@ void PulseNode :: InvalidatePulseTime(bool clearPrevResult)
 
 void PulseNode :: GetPulseTimeAux(uint64 now, uint64 & min)
 {
-   // First, update myself, if necessary...
-   if (_myScheduledTimeValid == false)
+   // InvalidatePulseTime() may get called on us while we are busy in here (by our own GetPulseTime(), or by a
+   // child's callback).  In that case we go around once more, so that the invalidation doesn't get lost.
+   for (uint32 pass=0; pass<2; pass++)
    {
-      _myScheduledTimeValid = true;
-      _myScheduledTime = GetPulseTime(PulseArgs(now, _myScheduledTime));
+      // First, update myself, if necessary...
+      if (_myScheduledTimeValid == false)
+      {
+         _myScheduledTimeValid = true;
+         _myScheduledTime = GetPulseTime(PulseArgs(now, _myScheduledTime));
+      }
+      else if (pass > 0) break;
+
+      // Then handle any of my kids who need to be recalculated also
+      PulseNode * & firstNeedy = _firstChild[LINKED_LIST_NEEDSRECALC];
+      if (firstNeedy) while(firstNeedy) firstNeedy->GetPulseTimeAux(now, min);  // guaranteed to move (firstNeedy) out of the recalc list!
    }
 
-   // Then handle any of my kids who need to be recalculated also
-   PulseNode * & firstNeedy = _firstChild[LINKED_LIST_NEEDSRECALC];
-   if (firstNeedy) while(firstNeedy) firstNeedy->GetPulseTimeAux(now, min);  // guaranteed to move (firstNeedy) out of the recalc list!
-
-   // Recalculate our effective pulse time
+   // Recalculate our effective pulse time.  If we got invalidated yet again, we don't know when we want to be pulsed:
+   // in that case ask to be visited ASAP (time zero), so that PulseAux() will put us back into the recalc list and
+   // GetPulseTime() gets called again at the start of the next event-loop cycle.
    const uint64 oldAggregatePulseTime = _aggregatePulseTime;
-   _aggregatePulseTime = muscleMin(_myScheduledTime, GetFirstScheduledChildTime());
+   _aggregatePulseTime = muscleMin(_myScheduledTimeValid ? _myScheduledTime : (uint64)0, GetFirstScheduledChildTime());
    if ((_parent)&&((_curList == LINKED_LIST_NEEDSRECALC)||(_aggregatePulseTime != oldAggregatePulseTime))) _parent->ReschedulePulseChild(this, (_aggregatePulseTime==MUSCLE_TIME_NEVER)?LINKED_LIST_UNSCHEDULED:LINKED_LIST_SCHEDULED);
 
    // Update the caller's minimum time value
